@@ -45,6 +45,41 @@ def build(mods, imps, level_limit=None, check=True):
     return ev
 
 
+class Recycler:
+    """A long-lived process builds an architecture, uses it, drops it and builds the next one (a test session over several
+    projects, a watch mode, a server).  CPython hands the memory of a dead object to the next object of the same size, so
+    the new architecture very often has the id() its dead predecessor had.  To make that the rule rather than a matter of
+    luck, the inner graph of the next architecture is built FIRST, then the old architecture is dropped, and the new
+    wrapper object is created straight afterwards.  `same_address` counts how often the address was indeed re-used."""
+
+    def __init__(self):
+        self.ev = None
+        self.last_id = None
+        self.same_address = 0
+        self.built = 0
+
+    def next(self, mods, imps, level_limit=None):
+        from pytestarch.eval_structure.evaluable_graph import EvaluableArchitectureGraph
+        from pytestarch.eval_structure.networkxgraph import NetworkxGraph
+        from pytestarch.eval_structure_generation.file_import.import_types import AbsoluteImport
+
+        g = NetworkxGraph(list(mods), [AbsoluteImport(a, b) for a, b in imps], level_limit)
+        self.ev = None  # the predecessor dies here (the workload must not hold on to it either)
+        self.ev = EvaluableArchitectureGraph(g)
+        del g
+        self.built += 1
+        if id(self.ev) == self.last_id:
+            self.same_address += 1
+            HUB.acc.count("architectures_built_at_the_address_of_a_dead_predecessor")
+        self.last_id = id(self.ev)
+        if level_limit is None:
+            HUB.register_truth(self.ev, close_under_ancestors(mods), frozenset(imps))
+        return self.ev
+
+    def drop(self):
+        self.ev = None
+
+
 def hostile_reads(ev, mods):
     """What a caller may legitimately do before evaluating rules: use the read accessors of the architecture and do
     whatever it likes with THEIR results (they are the caller's objects).  Every third driver-built architecture gets
